@@ -247,24 +247,25 @@ def generate(wd):
         fh.write(body)
     with open(os.path.join(wd, "replay.rs"), "w") as fh:
         fh.write(body + REPLAY_MAIN)
-    lock = os.path.join(rp, "Cargo.lock")
+    with open(os.path.join(crate, "Cargo.lock"), "w") as fh:   # no dependencies: nothing of the repo's Cargo.lock applies
+        fh.write('version = 3\n\n[[package]]\nname = "c06_ebpf_rs"\nversion = "0.0.0"\n')
     return crate, lines
 
 
 # ------------------------------------------------------------------ running Kani
-def env():
+def env(target):
     e = dict(os.environ)
     e["CARGO_NET_OFFLINE"] = "true"
-    e["CARGO_TARGET_DIR"] = os.path.join(workdir(), "target")
+    e["CARGO_TARGET_DIR"] = os.path.join(workdir(), target)
     return e
 
 
-def sh(cmd, cwd, timeout, cmds=None):
+def sh(cmd, cwd, timeout, cmds=None, target="target"):
     if cmds is not None:
-        cmds.append("cd %s && CARGO_NET_OFFLINE=true CARGO_TARGET_DIR=%s %s" % (cwd, os.path.join(workdir(), "target"), " ".join(shlex.quote(c) for c in cmd)))
+        cmds.append("cd %s && CARGO_NET_OFFLINE=true CARGO_TARGET_DIR=%s %s" % (cwd, os.path.join(workdir(), target), " ".join(shlex.quote(c) for c in cmd)))
     t0 = time.time()
     try:
-        p = subprocess.run(cmd, cwd=cwd, env=env(), stdout=subprocess.PIPE, stderr=subprocess.PIPE, timeout=timeout, text=True, errors="replace")
+        p = subprocess.run(cmd, cwd=cwd, env=env(target), stdout=subprocess.PIPE, stderr=subprocess.PIPE, timeout=timeout, text=True, errors="replace")
         return p.returncode, p.stdout, p.stderr, time.time() - t0
     except subprocess.TimeoutExpired as e:
         so = e.stdout.decode("utf8", "replace") if isinstance(e.stdout, bytes) else (e.stdout or "")
@@ -311,14 +312,23 @@ def label_of(desc, harness):
     return "safety", "C06.rs.%s.safety" % harness.replace("h_", "", 1)
 
 
-def run_kani(crate, harnesses, timeout, cmds, playback=False):
+def run_kani(crate, harnesses, timeout, cmds, playback=False, target="target"):
     cmd = ["cargo", "kani"]
     if playback:
         cmd += ["-Z", "concrete-playback", "--concrete-playback=print"]
     for h in harnesses:
         cmd += ["--harness", "h_" + h]
-    rc, so, se, wall = sh(cmd, crate, timeout, cmds)
+    rc, so, se, wall = sh(cmd, crate, timeout, cmds, target)
     return rc, so, se, wall
+
+
+# harnesses verified by one `cargo kani` process each group; groups run in parallel, each with its own CARGO_TARGET_DIR
+# (cargo serialises builds that share a target directory)
+GROUPS = [
+    ["policy_key_image", "audit_key_image", "audit_entry_field_order", "skip_entry_image", "rust_layout", "audit_decode"],
+    ["lookup_audit"], ["update_redirect_policy"], ["update_policy_elem"], ["update_skip_process_map"], ["remove_audit_map_entry"],
+    ["constants_wire_server"], ["constants_ga_plugin"], ["constants_imds"], ["constants_proxy_agent"],
+]
 
 
 # ------------------------------------------------------------------ replay
@@ -382,18 +392,23 @@ def run(tier="quick", seed=0, pid="C06"):
             else:
                 res["undecided"].append("anchor lost: %s not found in %s" % (path, rel))
     names = [h for h, _ in HARNESS]
-    # one cargo kani build, then harnesses verified in parallel by separate processes sharing the target dir is not
-    # supported by cargo's lock; Kani's own -j needs terse output.  So: one invocation per group, groups in parallel,
-    # each with its own copy of the crate dir?  No: a single invocation is fast enough (loop-free, tiny) -- measured.
-    rc, so, se, wall = run_kani(crate, names, timeout, cmds)
-    if rc is None:
-        res["undecided"].append("cargo kani timed out after %ss" % timeout)
-        res["wall_s"] = time.time() - t_start
-        return res
-    parsed = parse_kani(so)
-    if "error: could not compile" in se or "error[" in se or (not parsed):
-        errs = "\n".join(l for l in se.split("\n") if l.startswith("error"))[:800]
-        res["undecided"].append("the harness crate does not compile against the real files (type/anchor problem, not a verdict): %s" % (errs or se[-600:]))
+    assert sorted(names) == sorted(sum(GROUPS, []))
+    parsed, wall = {}, 0.0
+    with concurrent.futures.ThreadPoolExecutor(len(GROUPS)) as ex:
+        futs = [(g, ex.submit(run_kani, crate, g, timeout, cmds, False, "target_g%d" % i)) for i, g in enumerate(GROUPS)]
+        for g, f in futs:
+            rc, so, se, w = f.result()
+            wall = max(wall, w)
+            if rc is None:
+                res["undecided"].append("cargo kani timed out after %ss on harnesses %s" % (timeout, g))
+                continue
+            p = parse_kani(so)
+            if "error: could not compile" in se or re.search(r"^error(\[|:)", se, re.M) or not p:
+                errs = "\n".join(l for l in se.split("\n") if l.startswith("error"))[:800]
+                res["undecided"].append("the harness crate does not compile / Kani did not run for %s (type/anchor/tool problem, not a verdict): %s" % (g, errs or se[-600:]))
+                continue
+            parsed.update(p)
+    if not parsed:
         res["wall_s"] = time.time() - t_start
         return res
     failing = {}
@@ -405,32 +420,40 @@ def run(tier="quick", seed=0, pid="C06"):
             res["undecided"].append("Kani produced no verdict for harness %s: %s" % (h, (r or {}).get("text", se)[-300:]))
             continue
         res["solver_s"] += r["solver_s"]
-        n_all = n_ok = 0
+        n_all = n_ok = n_unreach = n_clause = 0
         for cid, st, desc, loc in r["checks"]:
             kind, lab = label_of(desc, h)
             if kind == "vacuity":
                 if st != "SATISFIED":
                     res["undecided"].append("vacuity guard: cover at the end of %s is %s (harness cannot reach its end)" % (h, st))
                 continue
+            if st == "UNREACHABLE":
+                # Kani proved the check's location unreachable.  For a library-internal safety check that is a fact about the
+                # path (not counted either way); for a C06 clause it means the clause was never exercised: vacuous.
+                n_unreach += 1
+                if kind == "clause":
+                    res["undecided"].append("vacuity guard: clause %s is UNREACHABLE in %s" % (lab, h))
+                continue
             n_all += 1
+            n_clause += 1 if kind == "clause" else 0
             if st == "SUCCESS":
                 n_ok += 1
             elif st == "FAILURE":
                 failing.setdefault(lab, []).append((name, cid, desc, loc))
             else:
                 res["undecided"].append("%s: check %s (%s) has status %s" % (h, cid, desc[:80], st))
-        if r["summary"][1] != n_all:
-            res["undecided"].append("%s: parsed %d checks but Kani's summary says %d" % (h, n_all, r["summary"][1]))
+        if r["summary"][1] != n_all + n_unreach:
+            res["undecided"].append("%s: parsed %d checks but Kani's summary says %d" % (h, n_all + n_unreach, r["summary"][1]))
         if r["cover"] is None or r["cover"][0] != r["cover"][1]:
             res["undecided"].append("vacuity guard: %s cover summary %s" % (h, r["cover"]))
-        per_h[h] = dict(checks=n_all, success=n_ok, verdict=r["verdict"], solver_s=round(r["solver_s"], 3), verification_s=r["verif_s"])
+        per_h[h] = dict(checks=n_all, clause_checks=n_clause, success=n_ok, unreachable_not_counted=n_unreach, verdict=r["verdict"], solver_s=round(r["solver_s"], 3), verification_s=r["verif_s"])
         res["obligations"] += n_all
         res["discharged"] += n_ok
 
     # failures: counterexample by concrete playback, replay with plain rustc on the same real files
     if failing:
         bad_h = sorted(set(x[0] for v in failing.values() for x in v))
-        rc2, so2, se2, _ = run_kani(crate, bad_h, timeout, cmds, playback=True)
+        rc2, so2, se2, _ = run_kani(crate, bad_h, timeout, cmds, playback=True, target="target_playback")
         pb = parse_kani(so2) if rc2 is not None else {}
         binary, berr = build_replay(wd, cmds)
         ins_of = dict(HARNESS)
